@@ -265,9 +265,22 @@ class C09(Prop):
             "stdin then staying open (blocking) or ending; observed: the ServerCompatResponse names a port and a probe of that port finds the "
             "http_version (h2c prior knowledge accepted or not) and message_receive_limit (300-byte unary request refused or served) of the request "
             "sent; every truncation gives an error exit (or, with stdin kept open, a server waiting in Read), never an answer. "
+            "The gRPC reference peers the same way, against the same model functions: grpcclient Run / RunWithTrace (c09.grpcclient, ~1700 quick; "
+            "every request names a host grpc.NewClient refuses on the spot, so it is answered at once with an error result carrying its test "
+            "name; plus a 30-request stream > 1 KiB - several 512-byte refills of json.Decoder - in one read, 600-byte reads, one request per "
+            "read, byte by byte, for both clients), grpcserver Run / RunWithTrace (c09.grpcserver, ~240 quick; the probe sees protocol gRPC vs "
+            "gRPC-Web - a plain HTTP/1.1 request answered or not - and the receive limit - a 300-byte gRPC unary call refused with "
+            "ResourceExhausted or served). The runner's WIRING of its two limits (c09.limits, ~250 quick): the real runTestCasesForServer "
+            "(server response, 1 MB) and the real runClient + clientProcessRunner.consumeOutput (client response, 16 MB) over a scripted peer "
+            "stdout announcing limit-1, limit, limit+1 of BOTH limits on BOTH readers, 2 MB, 2^31, 2^32-1 and small sizes, with the body absent / "
+            "9 bytes / complete (virtual: zeros generated on demand, so 16 MB costs nothing unless read), prefix split 4, 1+3, 2+2, 3+1, 1+1+1+1, "
+            "then EOF or an I/O error (no stall: no time-out is waited for); compared: accepted (test case sent on / pending callback got the "
+            "response) vs unexpected EOF vs I/O error vs rejected with NOTHING taken behind the prefix, body bytes handed out, largest buffer "
+            "handed to Read (4 for a rejected prefix). "
             "non-trivial = at least one message delivered or an error other than a clean end")
     trusted_base = ("Coq 8.16.1 kernel", "extraction (ExtrOcamlBasic only) + ocaml/driver.ml",
-                    "vlib generators/comparator, Go overlay harness incl. the scripted reader and writer (same semantics as C09_Model.src_read / sink_write)",
+                    "vlib generators/comparator, Go overlay harness incl. the scripted reader and writer (same semantics as C09_Model.src_read / sink_write), "
+                    "the scripted peer process / client of c09.limits and its virtual message body (a valid message of any exact size: field 1 + unknown-field padding)",
                     "modelled not verified: proto.Marshal/Unmarshal, protojson, the goroutine/timer of the timeout path, "
                     "encoding/json's scanner (an oracle in the JSON theorems; a bracket-depth scanner stands in for it when the model is run, and "
                     "for that scanner the stability hypothesis is proved)")
@@ -291,7 +304,11 @@ class C09(Prop):
                   "relative to an oracle for encoding/json's scanner; unconditional for the bracket scanner the model is run with. "
                   "The peers' main loops (decoder created once per stream, DecodeNext until EOF; the server's single DecodeNext) answer exactly the "
                   "sequence sent for every chunking in both variants, derived from the decoders' chunking theorems; a decoder re-created per request "
-                  "is proved to lose every request but the first whenever one read delivers a whole JSON stream. "
+                  "is proved to lose every request but the first whenever one read delivers a whole JSON stream. The gRPC reference peers' loops "
+                  "are decided by the same model functions (grpc_peers_run_the_same_loops). The runner's wiring - which of the two regenerated "
+                  "constants each of its two readers hands to ReadDelimitedMessage - is a table in the model (reader_limit); limits_wired: each "
+                  "reader rejects exactly the announcements above ITS documented limit (client output 16 MB, server response 1 MB) at the prefix, "
+                  "body unread, no buffer but the 4 prefix bytes, and takes everything up to it, for every body, schedule and ending. "
                   "The model is tied to the Go code by a bounded-exhaustive plus random differential run on every check.")
     level_note = ("Trusted: Coq kernel, extraction, OCaml driver, harness and scripted reader/writer; model-to-code correspondence is sampled "
                   "(all read compositions of streams <= 12/14 bytes, every writer failure point of small streams), not proved. The timer/goroutine "
@@ -304,7 +321,12 @@ class C09(Prop):
                   "Theorems named *_partial are relative to the JSON scanner oracle. Main loops: what a request DOES (the RPC) is outside the model - "
                   "a decoded request is projected to its test name / to the started server's http version and receive limit through a table the "
                   "case carries (the harness checks every table entry against the message unmarshalled on its own); a client whose stdin stays "
-                  "open (the loop waiting for more) is not driven, the server's is.")
+                  "open (the loop waiting for more) is not driven, the server's is. gRPC client: only requests that fail before dialling are "
+                  "driven (a refused connection costs this client 5 s), gRPC server: receive limit 0 is not driven. Limits wiring: that the "
+                  "code's two call sites use the constant the table says is SAMPLED by c09.limits (windows around both limits every run), not "
+                  "proved; c09.limits is evaluated through a closed form (limits_closed_form proves it equal to the reader for every body) and "
+                  "classifies 'rejected' as an error that is neither unexpected EOF nor the scripted I/O error with nothing read behind the "
+                  "prefix; stalled peers at these two call sites (the 10 s / 20 s time-outs) are not driven.")
     technique = "Coq proof by induction on the read loop (closed form independent of the schedule); differential model-vs-Go correspondence"
     go_timeout = 600
 
